@@ -55,6 +55,19 @@ def _foreign_prefixes_used(f, comp, files):
     return used
 
 
+def facet_lexical(v, style):
+    """XSD integer lexical variants: all denote the same number."""
+    if not isinstance(v, int):
+        return str(v)
+    if style == "plus" and v >= 0:
+        return f"+{v}"
+    if style == "padded":
+        return f" {v} "
+    if style == "zeros":
+        return ("-" if v < 0 else "") + "00" + str(abs(v))
+    return str(v)
+
+
 def occurs_attrs(mn, mx):
     s = ""
     if mn != 1:
@@ -118,7 +131,7 @@ def render_component(f, c, files, ind="  "):
         out += render_doc(f, c.doc, ind + "  ")
         out.append(f'{ind}  <{x}:restriction base={quoteattr(qname(f, c.base))}>')
         for k, v in c.facets.items():
-            out.append(f'{ind}    <{x}:{k} value={quoteattr(str(v))}/>')
+            out.append(f'{ind}    <{x}:{k} value={quoteattr(facet_lexical(v, getattr(c, "lexical_style", "plain")))}/>')
         for e in c.facets.enumeration or []:
             out.append(f'{ind}    <{x}:enumeration value={quoteattr(e)}/>')
         out.append(f'{ind}  </{x}:restriction>')
